@@ -23,6 +23,7 @@ var (
 	UPkgD  = UsePkg{PathD, "d"}
 	UPkgU  = UsePkg{"ex.com/m/u", "u"}
 	UPkgXU = UsePkg{"ex.com/m/x/u", "u"}
+	UPkgXD = UsePkg{"ex.com/m/x/d", "d"} // another package that is also CALLED d
 	UPkgW  = UsePkg{"ex.com/m/w", "w"}
 	UPkgVV = UsePkg{"ex.com/m/v2", "vv"}
 )
@@ -200,6 +201,7 @@ func UseSites() []UseSite {
 		{Tag: "twin var Plain", Stmt: "var $v {q}Plain; _ = $v", Kind: UKNone, TONL: true},
 		{Tag: "shadow local Helper", Stmt: "func() { Helper := func() int { return 0 }; _ = Helper() }()", Kind: UKNone, TONL: true, Core: true},
 		{Tag: "shadow param Helper", Stmt: "func(Helper func() int) { _ = Helper() }(nil)", Kind: UKNone, TONL: true},
+		{Tag: "shadow local type Helper: a conversion, not a call", Stmt: "func() { type Helper int; _ = Helper(1); _ = (Helper)(2) }()", Kind: UKNone, TONL: true, Core: true},
 		{Tag: "shadow local type Mock", Stmt: "func() { type Mock struct{ A int }; _ = Mock{}; var m Mock; _ = m; _ = func(Mock) {} }()", Kind: UKNone, TONL: true, Core: true},
 		{Tag: "shadow local type S with Reset", Stmt: "func() { type S struct{ Reset func() }; S{Reset: func() {}}.Reset() }()", Kind: UKNone, TONL: true},
 		{Tag: "shadow field-func Reset()", Stmt: "struct{ Reset func() }{Reset: func() {}}.Reset()", Kind: UKNone, TONL: true},
@@ -230,6 +232,13 @@ func UseSites() []UseSite {
 			Refs: []UseRef{{Kind: UKFunc}, {Kind: UKMethod, Tag: "Reset"}, {Kind: UKFunc}}},
 		{Tag: "nested use(Helper(), Mock{})", Stmt: "_ = []any{{q}Helper(), {q}Mock{}, {q}Helper()}", Kind: UKFunc, TONL: true,
 			Refs: []UseRef{{Kind: UKFunc}, {Kind: UKType, Type: "Mock"}, {Kind: UKFunc}}},
+		// uses nested INSIDE a literal of an annotated type, and inside the initialiser of a variable of that type
+		{Tag: "nested lit Mock{A: Helper()}", Stmt: "_ = {q}Mock{A: {q}Helper()}", Kind: UKType, Type: "Mock", TONL: true, Core: true,
+			Refs: []UseRef{{Kind: UKType, Type: "Mock"}, {Kind: UKFunc}}},
+		{Tag: "nested var m Mock = Mock{A: Helper()}", Stmt: "var $v {q}Mock = {q}Mock{A: {q}Helper()}; _ = $v", Kind: UKType, Type: "Mock", TONL: true,
+			Refs: []UseRef{{Kind: UKType, Type: "Mock"}, {Kind: UKType, Type: "Mock"}, {Kind: UKFunc}}},
+		{Tag: "nested lit []Mock{{A: func..s.Reset()}}", Stmt: "_ = []{q}Mock{{A: func() int { s.Reset(); return 0 }()}}", Kind: UKType, Type: "Mock", TONL: true,
+			Refs: []UseRef{{Kind: UKType, Type: "Mock"}, {Kind: UKMethod, Tag: "Reset"}}},
 		// an exported annotated method of an UNEXPORTED type, reached through a constructor and through promotion
 		{Tag: "mcall NewWorker().Reset() unexported receiver type", Stmt: "{q}NewWorker().Reset()", Kind: UKMethod, TONL: true, Core: true},
 		{Tag: "mcall promoted EmbW.Reset() unexported embedded type", Stmt: "{q}EmbW{}.Reset()", Kind: UKMethod, TONL: true},
@@ -497,6 +506,9 @@ func usePreludeD(w *lineWriter, m UseMix) {
 		w.add("")
 		w.add("func PlainG[V any](v V) int { return 0 }")
 		w.add("")
+		w.add("// convTP converts through TYPE PARAMETERS named like the annotated functions: no call of either.")
+		w.add("func convTP[Helper ~int, HelperG ~int](v int) Helper { _ = HelperG(v); return Helper(v) }")
+		w.add("")
 	})
 	mReset := chunk(func() {
 		w.add("// Reset resets.")
@@ -574,7 +586,7 @@ func RenderUse(s *UseSpec) *UseRendered {
 	dot := !inD && s.Spell == SpDotImport
 	mock, mock2 := q+"Mock", q+"Mock2"
 	switch s.Spell {
-	case SpLocalAlias:
+	case SpLocalAlias, SpMixedAlias:
 		mock, mock2 = "AMock", "AMock2"
 	case SpThirdAlias:
 		mock, mock2 = "c.AMock", "c.AMock2"
@@ -586,7 +598,12 @@ func RenderUse(s *UseSpec) *UseRendered {
 		st = strings.ReplaceAll(st, "{q}Mock", mock)
 		return strings.NewReplacer("{q}", q, "$v", fmt.Sprintf("v%d", ctr)).Replace(st)
 	}
-	subst := func(stmt string) string { return substWith(stmt, mock, mock2) }
+	subst := func(stmt string) string {
+		if s.Spell == SpMixedAlias && ctr%2 == 1 {
+			return substWith(stmt, q+"Mock", q+"Mock2") // every second statement names the types directly
+		}
+		return substWith(stmt, mock, mock2)
+	}
 	files := make([]*lineWriter, 4)
 	perFile := make([][]UseSiteInst, 4)
 	used := []bool{true, false, false, false}
@@ -649,7 +666,7 @@ func RenderUse(s *UseSpec) *UseRendered {
 		w0.add("type Mock struct{ A int }")
 		w0.add("")
 	}
-	if s.Spell == SpLocalAlias {
+	if s.Spell == SpLocalAlias || s.Spell == SpMixedAlias {
 		// the alias declarations themselves mention the types: they are sites (first reference in the file)
 		ln := w0.add("type AMock0 = " + q + "Mock // first link of an alias chain")
 		perFile[0] = append(perFile[0], UseSiteInst{Tag: "alias-decl Mock", Kind: UKType, Type: "Mock", Block: -1, FileNo: 0, Line: ln, PKGOOnly: true})
